@@ -61,6 +61,7 @@ def rangeG (pm : List Param) (s : Frame) : Stmt → List Int → Bool
   | .putGlyph r c w, l => exR pm s l r && exR pm s l c && exR pm s l w
   | .setSpace r c, l => exR pm s l r && exR pm s l c
   | .setPen r c, l => exR pm s l r && exR pm s l c
+  | .setCharFromCell r c, l => exR pm s l r && exR pm s l c
   | _, _ => true
 
 /-- continue a check with the result of a computation (nothing to check after a panic) -/
@@ -91,6 +92,7 @@ def rangeS (pm : List Param) : Stmt → Frame → Bool
   | .call _ none, _ => true
   | .unknown _, _ => true
   | .prim _, _ => true
+  | .loadCell r c, s => exR pm s [] r && exR pm s [] c
   | st, s => rangeG pm s st []
 
 def rangeBody (b : Body) (pm : List Param) (args : List Int) (e : Emu) : Bool :=
